@@ -377,6 +377,9 @@ func (e *SpecEnv) call(n *ECall) SV {
 		return term(fmt.Sprintf("(select (TrA %s) %s)", e.H, e.t(n.Args[0])), SVal)
 	case "trB":
 		return term(fmt.Sprintf("(select (TrB %s) %s)", e.H, e.t(n.Args[0])), SVal)
+	case "mark":
+		// allocation watermark of the pre-state (everything at or above it is fresh)
+		return term(fmt.Sprintf("(next %s)", e.HN), SInt)
 	case "same":
 		// exact identity (for floats: the identical value, not Go's ==)
 		return term(fmt.Sprintf("(= %s %s)", e.t(n.Args[0]), e.t(n.Args[1])), SBool)
